@@ -38,3 +38,5 @@ ParseOutcome run_parse(const std::vector<unsigned char> &bytes, const ParseOpts 
 std::string errs_str(const std::vector<ErrEvt> &e, size_t max = 6);
 bool rc_defined(int rc);
 Knobs gen_knobs(Rng &r, bool allow_default);
+// one random corruption of a document (bit flip, replace, delete, duplicate, splice, cut, token or defective construct inserted); eng_doc.cpp
+void doc_corrupt(std::vector<unsigned char> &b, Rng &r, const Layout *lay);
